@@ -87,6 +87,14 @@ func ruleFreshMessagePerRead(c *core.Ctx, a *epAnchors, rule string) {
 		return // C11.read-error reports the missing anchor
 	}
 	key := "bus/net.endPoint.process/fresh-message"
+	if rs.dispatchInHelper != nil {
+		// receive(): the message is the helper's own allocation, one per call
+		recv := rs.inner.Common().Args[0]
+		al, ok := core.Canon(recv).(*ssa.Alloc)
+		ok = ok && al.Heap && al.Parent() == rs.helper && loopHeaderOf(al) == loopHeaderOf(rs.inner.(ssa.Instruction))
+		c.Check(ok, rule, key, rs.inner.Pos(), "every read fills a Message allocated for it", "a Message that was already handed to a handler queue can be read into again")
+		return
+	}
 	recv := rs.call.Common().Args[0]
 	rin := rs.call.(ssa.Instruction)
 	al, ok := core.Canon(recv).(*ssa.Alloc)
